@@ -575,4 +575,15 @@ theorem mem_of_mem_set {y : β} {c : β → β → Ordering} {l : List β} (h : 
 
 end SetLemmas
 
+theorem pairwise_mem_cases {α : Type} {R : α → α → Prop} : ∀ {l : List α}, l.Pairwise R →
+    ∀ a ∈ l, ∀ b ∈ l, a = b ∨ R a b ∨ R b a
+  | [], _, a, ha, _, _ => by simp at ha
+  | x :: l, h, a, ha, b, hb => by
+    obtain ⟨h1, h2⟩ := List.pairwise_cons.mp h
+    rcases List.mem_cons.mp ha with ha' | ha' <;> rcases List.mem_cons.mp hb with hb' | hb'
+    · exact Or.inl (ha'.trans hb'.symm)
+    · exact Or.inr (Or.inl (ha' ▸ h1 b hb'))
+    · exact Or.inr (Or.inr (hb' ▸ h1 a ha'))
+    · exact pairwise_mem_cases h2 a ha' b hb'
+
 end PrologVerif.Collect
